@@ -17,20 +17,20 @@ class SpecError(Exception):
 # ------------------------------------------------------------------ ULEB128 / zig-zag
 
 def uleb_enc(v, pad=0):
-    """ULEB128 of v; pad > 0 appends that many redundant (zero) groups: still the same number."""
+    """ULEB128 of v; pad > 0 appends up to that many redundant zero groups (same number; at most 10 bytes in all)."""
     out = bytearray()
     while True:
         b = v & 0x7F
         v >>= 7
-        if v or pad:
+        if v:
             out.append(b | 0x80)
-            if not v:
-                for k in range(pad):
-                    out.append(0x80 if k < pad - 1 else 0x00)
-                break
         else:
             out.append(b)
             break
+    pad = max(0, min(pad, 10 - len(out)))
+    if pad:
+        out[-1] |= 0x80
+        out += bytes([0x80] * (pad - 1) + [0x00])
     return bytes(out)
 
 
